@@ -270,3 +270,13 @@ var ProfileC18 = &Profile{
 		return h.Labels["block-with-missing-price"] > 0 && h.Labels["gap>=1d"] > 0 && (okCount(h, "leveragelp.open", "perpetual.open") > 0)
 	},
 }
+
+var ProfileC04 = &Profile{
+	ID: "C04", Name: "swap-batch", MinBlocks: 4, MaxBlocks: 25, MaxTxs: 4, Spec: specDefault, Check: CheckC04, ExtraOps: c04ExtraOps,
+	Weights: map[string]int{"amm.swap_in": 8, "amm.swap_out": 6, "amm.join": 4, "amm.exit": 3, "oracle.feed_price": 6, "perpetual.open": 3, "perpetual.close": 2, "stablestake.bond": 1, "amm.swap_in_2hop": 2},
+	Gaps:    []time.Duration{time.Second, 5 * time.Second, 6 * time.Second},
+	Rule:    "history with >=2 accepted requests of one sender in a block, or an accepted request that was not executable at end-block (accepted but no balance effect), and >=1 two-hop request delivered to a passive recipient",
+	NonTrivial: func(h *History) bool {
+		return (h.Labels["c04-multi-request-sender"] > 0 || h.Labels["c04-accepted-but-not-executed"] > 0) && okCount(h, "c04.swap_in_2hop", "c04.swap_out_2hop") > 0
+	},
+}
